@@ -299,7 +299,10 @@ def gen_scenario(rng, index, faults_enabled):
                 seq.append({"op": "recompile", "slot": slot, "t": a})
             at = rng.randrange(len(ops) + 1)
             ops[at:at] = seq
-    return {"index": index, "faults_enabled": bool(faults_enabled), "n_slots": n_slots, "texts": texts, "ops": ops}
+    # 'cold reference': the pristine verdicts come from a SEPARATE fresh process, so that the process under test has compiled
+    # nothing before its history starts (first-compile-in-a-process effects are not healed or pre-paid by the reference)
+    return {"index": index, "faults_enabled": bool(faults_enabled), "n_slots": n_slots, "texts": texts, "ops": ops,
+            "cold_ref": rng.random() < 0.25}
 
 
 # ---------------------------------------------------------------------------
@@ -361,6 +364,32 @@ class Runner:
             if head != tid and head in all_tids and lab not in self.sources.get(tid, ""):
                 raise Violation("foreign-label", f"{who} returned group {o[2]} which belongs to text {head}")
 
+    def _judge_json(self, sc):
+        """Runs in a separate fresh process: pristine verdict of every text, JSON-serialisable (no evaluator objects)."""
+        texts = sc["texts"]
+        all_tids = {t["tid"] for t in texts}
+        self.sources = {t["tid"]: t["text"] for t in texts}
+        old = sys.stdout, sys.stderr
+        sys.stdout, sys.stderr = self.out, self.err
+        try:
+            out = []
+            for t in texts:
+                try:
+                    j = self.judge(t, all_tids)
+                except Violation as v:
+                    return {"violation": [v.vclass, v.detail]}
+                except SimDeadlock as e:
+                    return {"violation": ["operation-never-returns", {"phase": "pristine constructions in a fresh process", "detail": str(e)}]}
+                j = dict(j)
+                j["ev"] = None
+                out.append(j)
+            return {"judged": out}
+        finally:
+            sys.stdout, sys.stderr = old
+
+    def _count_json(self, text):
+        return list(self.count_stage_events(text))
+
     def count_stage_events(self, text):
         tr = CrashTracer(self.sf, k=None)
         sys.settrace(tr)
@@ -396,8 +425,21 @@ class Runner:
         self.sources = {t["tid"]: t["text"] for t in texts}
         step_log = []
         info = {"ops_executed": 0, "states": set(), "crash_sites": set()}
+        self.cold_ref = bool(sc.get("cold_ref"))
         try:
-            judged = [self.judge(t, all_tids) for t in texts]
+            if self.cold_ref:
+                from .common import run_isolated
+
+                r = run_isolated(self._judge_json, (sc,), timeout=300.0)
+                if "violation" in r:
+                    raise Violation(r["violation"][0], r["violation"][1])
+                judged = r["judged"]
+                for j in judged:
+                    if j["ref"] is not None:
+                        j["ref"] = [tuple(o) for o in j["ref"]]
+                self.bump("probe.cold_reference_runs")
+            else:
+                judged = [self.judge(t, all_tids) for t in texts]
         except Violation as v:
             return self._viol(v, -1, sc, step_log, info)
         except SimDeadlock as e:
@@ -417,7 +459,18 @@ class Runner:
                     self._do_compile(op, rec, texts, judged, slots, model, tainted, last, stage_counts, info)
                 elif kind == "call":
                     s = op["slot"]
-                    if slots[s] is not None and not tainted[s]:
+                    if slots[s] is not None and not tainted[s] and judged[model[s]]["ev"] is None:
+                        # cold reference: no reference evaluator lives in this process; use the panel entry this call maps to
+                        panel = texts[model[s]]["panel"]
+                        i = gen.hash_str(repr(sorted(op["fields"].items(), key=lambda kv: kv[0]))) % len(panel)
+                        random.seed(1000 + i)
+                        got = outcome_of(slots[s], **panel[i])
+                        rec["got"] = got
+                        self.bump("calls")
+                        if got != judged[model[s]]["ref"][i]:
+                            raise Violation("call-mismatch", {"slot": s, "fields": panel[i], "got": got, "expected": judged[model[s]]["ref"][i],
+                                                               "accepted": texts[model[s]]["tid"]})
+                    elif slots[s] is not None and not tainted[s]:
                         random.seed(77)
                         got = outcome_of(slots[s], **op["fields"])
                         random.seed(77)
@@ -491,7 +544,12 @@ class Runner:
             fk = fault["kind"]
             if fk == "crash":
                 if ti not in stage_counts:
-                    stage_counts[ti] = self.count_stage_events(t["text"])
+                    if getattr(self, "cold_ref", False):
+                        from .common import run_isolated
+
+                        stage_counts[ti] = tuple(run_isolated(self._count_json, (t["text"],), timeout=120.0))
+                    else:
+                        stage_counts[ti] = self.count_stage_events(t["text"])
                     self.out.take(), self.err.take()
                 n_lines, n_calls = stage_counts[ti]
                 mode = fault.get("mode", "line")
